@@ -53,6 +53,10 @@ structure StreamExt where
   after : Nat
   deriving Repr, DecidableEq
 
+/-- `declared <= math.MaxInt64-start` (bfd427f): a length whose end does not fit an `int64` is a
+    broken length, not an offset to probe -/
+def lengthFits (start d : Nat) : Bool := decide (start + d ≤ 9223372036854775807)
+
 /-- `ReadStreamData` with the scanner at absolute position `pos` (at the keyword `stream`);
     `declared` is the usable value of `/Length` (`getInt` succeeded and gave `n ≥ 0`).
     Errors are those after the deferred handler (EOF has become `malformed`). -/
@@ -77,7 +81,7 @@ def readStreamData (file : Bytes) (pos : Nat) (declared : Option Nat) : Except E
     match declared with
     | none => recover
     | some d =>
-      if endstreamAt file (start + d) then
+      if lengthFits start d && endstreamAt file (start + d) then
         -- Discard(l); SkipWhiteSpace; SkipString("endstream")
         match skipWS (file.drop (start + d)) with
         | (_, true) => .error .malformed
@@ -104,12 +108,11 @@ def dictErase (k : Bytes) : List (Bytes × Obj) → List (Bytes × Obj)
     calls and at least one byte -/
 def objFuel (inp : Bytes) : Nat := 3 * inp.length + 8
 
-/-- the value of `/Length` as `ReadStreamData` sees it (library HEAD a2d2dfe): `.ok none` = unknown
-    (no entry, a negative value, or `getInt` failed with a malformed-file error: the extent is
-    recovered by searching), `.ok (some n)`, or — when `getInt` fails with a read error
-    (`IsReadError`: anything that is not a `MalformedFileError`, the bare `io.EOF` included) —
-    that error as it leaves `ReadStreamData` through its deferred handler (`io.EOF` becomes
-    "unexpected EOF while reading Stream", every other error is wrapped and stays what it is). -/
+/-- the value of `/Length` as `ReadStreamData` sees it (library HEAD e76f630): `.ok none` = unknown
+    (no entry, a negative value, or `getInt` failed with a malformed-file error or ran into the
+    end of the data — `io.EOF`/`io.ErrUnexpectedEOF`, e.g. a `/Length` object cut off by a
+    truncation: the extent is recovered by searching), `.ok (some n)`, or — when `getInt` fails with
+    any other read error — that error (wrapped, it stays what it is). -/
 def declaredOf (getInt : Obj → Except Err Int) (d : List (Bytes × Obj)) : Except Err (Option Nat) :=
   match dictLookup kwLength d with
   | none => .ok none
@@ -117,7 +120,7 @@ def declaredOf (getInt : Obj → Except Err Int) (d : List (Bytes × Obj)) : Exc
     match getInt o with
     | .ok n => .ok (if n ≥ 0 then some n.toNat else none)
     | .error .malformed => .ok none
-    | .error .eof => .error .malformed
+    | .error .eof => .ok none
     | .error _ => .error .other
 
 /-- `ReadObject` on a scanner with a `fileReader`, at absolute position `pos`.  `getInt` is the
